@@ -132,7 +132,7 @@ def run_cases(run, cases, exe, drv):
                 elif cur is not None:
                     r = results[cur]
                     r["lines"].append(line)
-                    for tag in ("load", "wf", "levels", "sets", "totals", "check"):
+                    for tag in ("load", "wf", "levels", "sets", "totals", "removal", "check"):
                         if line.startswith(tag + " "):
                             r[tag] = line
             if rc != 0 or rc2 != 0:
@@ -166,10 +166,10 @@ def judge(run, cases, results):
                 # this is a violation with a concrete input (above); otherwise the correspondence is broken
                 run.violation("correspondence:levels:%s" % kind, "model of hwloc_connect_levels/special lists disagrees with the implementation on %s" % name,
                               script + "\n--- verdict\n" + str(r.get("levels"))[:3000], no_input=(r["wf"] or "").startswith("wf ok"))
-            elif r.get("sets") != "sets ok" or r.get("totals") != "totals ok":
+            elif r.get("sets") != "sets ok" or r.get("totals") != "totals ok" or r.get("removal") != "removal ok":
                 run.violation("correspondence:sets-pipeline:%s" % kind,
-                              "model of the set post-processing (root fix-up, propagate_nodeset, fixup_sets, remove_unused_sets, propagate_total_memory) disagrees with the implementation on %s" % name,
-                              script + "\n--- verdict\n%s\n%s" % (r.get("sets"), r.get("totals")), no_input=(r["wf"] or "").startswith("wf ok"))
+                              "model of the set post-processing (root fix-up, propagate_nodeset, fixup_sets, remove_unused_sets, filter_bridges, remove_empty, propagate_total_memory) disagrees with the implementation on %s" % name,
+                              script + "\n--- verdict\n%s\n%s\n%s" % (r.get("sets"), r.get("totals"), r.get("removal")), no_input=(r["wf"] or "").startswith("wf ok"))
             elif (r["wf"] or "").startswith("wf ok"):
                 run.cov["traces_validated_against_impl"] += 1
             if r["check"] != "check ok":
